@@ -119,6 +119,21 @@ def dc(x):
 # content-preserving history detours for the "functional" properties (C08-C20):
 # the object under test should not only ever be a freshly constructed one.
 
+def clone_label(n):
+    """An EQUAL label that is (where the interpreter allows) a different object: a query must
+    find a node by equality, not by identity.  Small ints and one-character strings are shared
+    objects in CPython; the pools contain 1000, two-character strings and floats for this."""
+    if isinstance(n, bool):
+        return n
+    if isinstance(n, int):
+        return int(str(n))
+    if isinstance(n, float):
+        return float(repr(n))
+    if isinstance(n, str):
+        return "".join(list(n))
+    return n
+
+
 def nodes_with_metadata(h):
     """{node: metadata} from get_nodes(metadata=True), whose code returns a dict and whose
     docstring promises a list of (node, metadata) tuples: both shapes are read."""
